@@ -167,6 +167,19 @@ CLAIMED = {
          "eigenvalues at Gamma (eigenvalue reasoning), LAPACK. The induction principle is trusted; cos/sin are uninterpreted with parity axioms.",
     technique="deductive verification: kernel contracts + relational induction lemmas over the recursive-sum spec functions (z3), exact identities (sympy)",
     design="DESIGN.md section 5 C03"),
+ "C08": dict(
+    text="Wang method: dym_get_charge_sum, get_q_cart, get_dielectric_part and get_dynmat_want (c/dynmat.c) under contract: the term added to every "
+         "force-constant element is (n.Z_i)_a (n.Z_j)_b nac_factor / (N n.eps.n) with n the Cartesian q or, at the zone centre, the given direction, and the "
+         "result is herm(Dspec + term) (three branches incl. Gamma without direction = uncorrected). Lemmas over that contract: the term is homogeneous of "
+         "degree 0 in n (exact identity, sympy), vanishes for zero Born charges, and at q = 0 enters the Fourier sum as (number of images of j) x term with "
+         "zero imaginary part (two inductions over the recursive sums; cos 0 = 1, sin 0 = 0). Gonze-Lee: multiply_borns_at_ij / multiply_borns contract "
+         "dd[i,a,j,b] += sum_{m,n} Z_i[m][a] dd_in[i,m,j,n] Z_j[n][b] with frame, both OpenMP branches, race freedom and bounds with the callee inlined. "
+         "Python: DynamicalMatrixNAC.nac_factor after setting NAC parameters is the new factor x 4 pi / volume for an object in any prior state; "
+         "BrillouinZone coordinate changes keep the Cartesian q-point (exact identities).",
+    note=TRUST + "NOT decided: vanishing of the image phase sum at non-zero commensurate q (finite geometric sum; makes the Wang term a no-op there), the Gonze-Lee "
+         "reciprocal-space sum and its stated precision, symmetrize_borns_and_epsilon, the Q_DIRECTION_TOLERANCE switch of DynamicalMatrixNAC.run.",
+    technique="deductive verification: kernel contracts (z3), exact rational identities (sympy), induction lemmas over recursive sums",
+    design="DESIGN.md section 5 C08"),
 }
 
 NA = {
